@@ -351,6 +351,17 @@ def F46():
     return bool(np.all(np.isfinite(act))), f"all predicted rewards 0: get_probabilistic_action returned {np.asarray(act).tolist()}"
 
 
+def F47():
+    from artlib import DualVigilanceART
+    X = cc(np.random.default_rng(0).random((20, 2)))
+    with quiet():
+        m = FuzzyART(0.7, 0.01, 1.0).fit(X)
+        before = [int(t) for t in m.weight_sample_counter_]
+        DualVigilanceART(m, 0.1)
+        after = [int(t) for t in m.weight_sample_counter_]
+    return before == after, f"fitted module's counters before / after wrapping it in a DualVigilanceART: {before} / {after}"
+
+
 ALL = {k: v for k, v in list(globals().items()) if k[0] == "F" and k[1:3].isdigit()}
 
 if __name__ == "__main__":
